@@ -296,6 +296,18 @@ def _run_case(case):
                               f'upload {k} parsed while another parser object was fed in between gives {_short(both[k])}; '
                               f'alone in one piece it gives {_short(refs[k])}', got=both[k], ref=refs[k])
                     break
+        if case.get('plen') is None and case.get('mut') is None:
+            # reference-free clause for complete well-formed bodies: the one-piece parse computed in this process must
+            # itself be the list of parts the body was built from - a parser object that inherits state from parses this
+            # process did earlier gives the same wrong answer for every division, which the comparison below cannot see
+            exp = gm.expected_markups(st)
+            if exp is not None:
+                want = ([[nm, [a, b]] for nm, (a, b) in exp], None)
+                if (ref[0], ref[1]) != want:
+                    violation(res, 'C06:result-depends-on-earlier-parses',
+                              f'a complete well-formed {n}-byte body parsed in one piece gives {_short(ref)}, the parts it was '
+                              f'built from are {len(exp)} sections without error: the parser carries state from earlier parses '
+                              f'of this process', got=ref, ref=want)
         if got != ref:
             violation(res, 'C06:division-dependent',
                       f'division {cuts[:8]} of a {n}-byte {"prefix" if case.get("plen") is not None else "body"} gives '
